@@ -40,6 +40,8 @@ FS = "-Z unstable-options --cbmc-args --max-field-sensitivity-array-size 4096"
 
 def H(pid, file, name, tier="quick", mem="light", tq=300, tt=1800, deep=False, expect="pass",
       bounds="", inputs="", args="", replay="native"):
+    if deep:
+        tt = min(tt, 1800)  # a deep harness may be inconclusive; it must not hold a thorough run for hours
     _H.setdefault(pid, []).append(dict(
         pid=pid, file=file, name=name, tier=tier, mem=mem, tq=tq, tt=tt, deep=deep, expect=expect,
         bounds=bounds, inputs=inputs, args=args, replay=replay))
@@ -303,6 +305,7 @@ H("C07", "disease", "c07_omim_encode_multibyte_name", tq=900, mem="medium", boun
 H("C07", "disease", "c07_orpha_encode_multibyte_name", tq=900, mem="medium", bounds="orpha record, fixed 2-byte name, id and term symbolic")
 H("C07", "gene", "c07_gene_name_cap_utf8", tier="thorough", mem="heavy", tt=3600, deep=True, bounds="258-byte name, symbolic 1-3-byte character at the 255-byte cut")
 H("C07", "internal", "c07_term_name_cap_utf8", tier="thorough", mem="heavy", tt=3600, deep=True, bounds="258-byte name, symbolic 1-3-byte character at the 255-byte cut")
+H("C07", "gene", "c07_gene_name_cap_boundary", tier="thorough", mem="heavy", tt=3600, deep=True, bounds="258-byte name, symbolic 1-3-byte character at the 255-byte cut; cut position must be a char boundary")
 H("C07", "gene", "c07_gene_twin_must_fail", expect="fail")
 H("C07", "disease", "c07_disease_twin_must_fail", expect="fail")
 
@@ -385,6 +388,8 @@ H("C15", "builder", "c15_annotate_gene_absent", tier="thorough", mem="heavy", tt
 H("C15", "builder", "c15_annotate_omim_absent", tier="thorough", mem="heavy", tt=3600, deep=True, args=FS, bounds="annotate_omim_disease on an absent term id")
 H("C15", "builder", "c15_annotate_orpha_absent", tier="thorough", mem="heavy", tt=3600, deep=True, args=FS, bounds="annotate_orpha_disease on an absent term id")
 H("C15", "builder", "c15_annotate_orpha_present", tier="thorough", mem="heavy", tt=3600, args=FS, bounds="annotate_orpha_disease on a present term")
+for k in ("gene", "omim", "orpha"):
+    H("C15", "builder", "c15_annotate_%s_beyond_table" % k, tier="thorough", mem="heavy", tt=1800, deep=True, args=FS, bounds="annotate_%s with a term id beyond the id table (the analogue of an id >= 10^7), empty maps" % k)
 H("C15", "builder", "c15_twin_must_fail", expect="fail", args=FS)
 
 # ------------------------------------------------------------------------------------------------
